@@ -291,6 +291,11 @@ func (fr *Frame) modifiedRoots(lp *Loop) (map[ssa.Value]bool, bool) {
 		case *ssa.Alloc, *ssa.Parameter, *ssa.MakeSlice, *ssa.FreeVar, *ssa.MakeMap:
 			roots[r] = true
 		default:
+			if isEncoderPtr(r.Type()) || isNamedPtr(r.Type(), typesPkg, "Hasher") {
+				// the Encoder/Hasher state that matters is the ghost item stream, which is not
+				// part of the havoced memory
+				return
+			}
 			if _, ok := r.Type().Underlying().(*types.Pointer); ok {
 				unknown = true
 				unknownWhy = fmt.Sprintf("%s (%T)", r.Name(), r)
